@@ -227,6 +227,26 @@ func c14GoEC(r *Run, t *tape.Tape, priv *ecdsa.PrivateKey, ent *Entropy) {
 		r.Fail("newkey-from-public-fails/"+name, "NewKeyFromPublic refused a valid key: %v", err)
 		return
 	}
+	if t.Bool(1, 4, "c14.literal") {
+		// the same keys written as struct literals by the application: the
+		// curve spelt with whatever Go integer type came to hand, the
+		// coordinates as math/big hands them out (no leading zeros)
+		respell := func(k *cose.Key) *cose.Key {
+			out := &cose.Key{Type: k.Type, Algorithm: k.Algorithm, Params: map[any]any{}}
+			for l, v := range k.Params {
+				out.Params[l] = v
+			}
+			crv := int64(k.Params[cose.KeyLabelEC2Curve].(cose.Curve))
+			out.Params[cose.KeyLabelEC2Curve] = []any{crv, int(crv), int8(crv), int16(crv), cose.Curve(crv), int32(crv)}[t.Choose(6, "c14.literal.crv")]
+			if t.Bool(1, 2, "c14.literal.trim") {
+				out.Params[cose.KeyLabelEC2X] = priv.X.Bytes()
+				out.Params[cose.KeyLabelEC2Y] = priv.Y.Bytes()
+			}
+			return out
+		}
+		ck, cpub = respell(ck), respell(cpub)
+		r.Fired("app.key-struct-literal")
+	}
 	dec := decorate(t, ck) + decorate(t, cpub)
 	r.Outcome("ec/" + name + "/lz=" + lz + dec)
 	var slot *cose.Key
@@ -491,6 +511,10 @@ func opsClass(ks *KeySpec) string {
 
 func scenarioC15(r *Run) {
 	t := r.T
+	if t.Bool(1, 40, "c15.foreigncurve") {
+		c15ForeignCurve(r, t)
+		return
+	}
 	ks := genKeySpec(t)
 	if t.Bool(1, 16, "c15.bignum") {
 		// an application parameter holding a CBOR bignum
@@ -1085,4 +1109,69 @@ func goOpsAllow(k *cose.Key, op cose.KeyOp) bool {
 		}
 	}
 	return false
+}
+
+// foreignCurves: Go curve values that are none of P-256, P-384, P-521 - keys
+// on them are unsupported keys, whatever their bit size.
+func foreignCurves() []*elliptic.CurveParams {
+	hex := func(s string) *big.Int { n, _ := new(big.Int).SetString(s, 16); return n }
+	k1 := &elliptic.CurveParams{Name: "secp256k1", BitSize: 256,
+		P:  hex("fffffffffffffffffffffffffffffffffffffffffffffffffffffffefffffc2f"),
+		N:  hex("fffffffffffffffffffffffffffffffebaaedce6af48a03bbfd25e8cd0364141"),
+		B:  big.NewInt(7),
+		Gx: hex("79be667ef9dcbbac55a06295ce870b07029bfcdb2dce28d959f2815b16f81798"),
+		Gy: hex("483ada7726a3c4655da4fbfc0e1108a8fd17b448a68554199c47d08ffb10d4b8")}
+	out := []*elliptic.CurveParams{k1, elliptic.P224().Params()}
+	// private parameter sets of the common sizes (brainpool-like: same
+	// sizes as the NIST curves, other constants)
+	for _, c := range []elliptic.Curve{elliptic.P256(), elliptic.P384(), elliptic.P521()} {
+		p := *c.Params()
+		p.Name = "private-" + p.Name
+		p.B = new(big.Int).Add(p.B, big.NewInt(1))
+		out = append(out, &p)
+	}
+	return out
+}
+
+// c15ForeignCurve: a Go key on a curve this library has no algorithm for is
+// an unsupported key: whatever the constructors make of it, no signer and no
+// verifier comes out.
+func c15ForeignCurve(r *Run, t *tape.Tape) {
+	cs := foreignCurves()
+	c := cs[t.Choose(len(cs), "c15.foreign.curve")]
+	// any point will do: the key is unsupported because of its curve
+	x := new(big.Int).SetBytes(t.Bytes((c.BitSize+7)/8, "c15.foreign.x"))
+	y := new(big.Int).SetBytes(t.Bytes((c.BitSize+7)/8, "c15.foreign.y"))
+	if c.Name == "secp256k1" {
+		x, y = c.Gx, c.Gy
+	}
+	x.Mod(x, c.P)
+	y.Mod(y, c.P)
+	priv := &ecdsa.PrivateKey{PublicKey: ecdsa.PublicKey{Curve: c, X: x, Y: y}, D: big.NewInt(int64(1 + t.Choose(1000, "c15.foreign.d")))}
+	r.Op("KEY_PUT", "Go ECDSA key on %s (%d bits)", c.Name, c.BitSize)
+	r.Outcome("foreign-curve/" + c.Name)
+	var k1, k2 *cose.Key
+	var e1, e2 error
+	r.Lib(func() { k1, e1 = cose.NewKeyFromPrivate(priv) })
+	r.Lib(func() { k2, e2 = cose.NewKeyFromPublic(&priv.PublicKey) })
+	r.Check()
+	if e1 == nil && k1 != nil {
+		var s cose.Signer
+		var err error
+		r.Lib(func() { s, err = k1.Signer() })
+		if err == nil && s != nil {
+			r.Fail("signer-for-unsupported-key/go-curve-"+c.Name, "NewKeyFromPrivate made a COSE_Key (crv %v, alg %v) of a Go key on %s, and Key.Signer() yields a signer for %v", k1.Params[cose.KeyLabelEC2Curve], k1.Algorithm, c.Name, s.Algorithm())
+			return
+		}
+	}
+	if e2 == nil && k2 != nil {
+		var v cose.Verifier
+		var err error
+		r.Lib(func() { v, err = k2.Verifier() })
+		if err == nil && v != nil {
+			r.Fail("verifier-for-unsupported-key/go-curve-"+c.Name, "NewKeyFromPublic made a COSE_Key (crv %v, alg %v) of a Go key on %s, and Key.Verifier() yields a verifier for %v", k2.Params[cose.KeyLabelEC2Curve], k2.Algorithm, c.Name, v.Algorithm())
+			return
+		}
+	}
+	r.Probe("foreign-go-curve-refused")
 }
